@@ -698,6 +698,10 @@ class Gen:
         if r.random() < 0.5 * self.size:
             for op in r.sample(["==", "+", "[]c", "()", "neg", "cast", "<"], r.choice([1, 2, 3])):
                 cls["methods"].append(self.gen_operator(cls, op, ind))
+        if getattr(self, "ext", False) and r.random() < 0.3:
+            # (v3) arithmetic operators with a floating-point / integer operand (true-divide, in-place, modulo slots)
+            for op in r.sample(["/", "/=", "*d", "%"], r.choice([1, 2])):
+                cls["methods"].append(self.gen_operator(cls, op, ind))
         if getattr(self, "ext", False) and r.random() < 0.35:
             # implicit conversion to a pointer to another class (raw declaration, not part of the model)
             others = [c2 for c2 in self.classes.values() if c2.get("complete") and not c2.get("abstract") and not c2.get("template")
@@ -808,6 +812,24 @@ class Gen:
         elif op == "neg":
             f = self.gen_function(cls, "method", name="operator -", ret=T("obj", cls=q, mode="val"), params=[],
                                   const=True, indent=ind)
+        elif op == "/":
+            f = self.gen_function(cls, "method", name="operator /", ret=T("obj", cls=q, mode="val"),
+                                  params=p(T("float", c="double"), "k"), const=True, indent=ind)
+        elif op == "/=":
+            f = self.gen_function(cls, "method", name="operator /=", ret=T("obj", cls=q, mode="ref"),
+                                  params=p(T("float", c="double"), "k"), const=False, indent=ind)
+            # an assignment operator returns *this (interrogate's wrappers rely on that convention)
+            i = len(self.cx) - 1
+            while " *vf_r = " not in self.cx[i]:
+                i -= 1
+            self.cx[i] = self.cx[i].split("=")[0] + "= this;"
+            f["returns"] = "this"
+        elif op == "*d":
+            f = self.gen_function(cls, "method", name="operator *", ret=T("obj", cls=q, mode="val"),
+                                  params=p(T("float", c="float"), "k"), const=True, indent=ind)
+        elif op == "%":
+            f = self.gen_function(cls, "method", name="operator %", ret=T("int", c="int"),
+                                  params=p(T("int", c="int"), "m"), const=True, indent=ind)
         else:
             f = self.gen_function(cls, "method", name="operator int", ret=T("int", c="int"), params=[], const=True,
                                   indent=ind)
@@ -887,7 +909,26 @@ class Gen:
         insts = r.sample([("int", T("int", c="int")), ("double", T("float", c="double")), ("short int", T("int", c="short")),
                           ("unsigned int", T("int", c="unsigned int"))], 2)
         h, cx = self.h, self.cx
-        h += [f"template<class T> struct {tn}_tr;", f"template<class T> class {tn} {{", "PUBLISHED:", f"  {tn}();",
+        # (v3) base classes of the template: the base list of every instantiation must carry over access and virtual-ness
+        tbases = []          # (qname, virtual, access)
+        if getattr(self, "ext", False) is True and getattr(self, "tbases", True):
+            shape = r.choice(["none", "pub", "pub+virt", "priv+pub", "virt"])
+            if shape != "none":
+                sv = self.size
+                self.size = min(self.size, 0.4)
+                mk_base = lambda: self.gen_class()["qname"]
+                if shape == "pub":
+                    tbases = [(mk_base(), False, "public")]
+                elif shape == "virt":
+                    tbases = [(mk_base(), True, "public")]
+                elif shape == "pub+virt":
+                    tbases = [(mk_base(), False, "public"), (mk_base(), True, "public")]
+                else:
+                    tbases = [(mk_base(), False, "private"), (mk_base(), False, "public")]
+                self.size = sv
+        bl = ", ".join(f"{acc} {'virtual ' if v else ''}{b}" for b, v, acc in tbases)
+        binit = (" : " + ", ".join(f"{b}(vf::PoolTag())" for b, v, acc in tbases)) if tbases else ""
+        h += [f"template<class T> struct {tn}_tr;", f"template<class T> class {tn}{' : ' + bl if bl else ''} {{", "PUBLISHED:", f"  {tn}();",
               f"  {tn}(const {tn} &vf_o);", f"  ~{tn}();", "  T get_v() const;", "  void set_v(T v);",
               "  T twice(T v, int k = 2) const;", "public:", f"  unsigned long long st_{tn};", "  T _v;",
               f"  explicit {tn}(vf::PoolTag);", f"  static {tn} *vf_pool(unsigned long long h);", "};"]
@@ -902,7 +943,9 @@ class Gen:
             mk = lambda k, nm, kind, ps, ret, const=False: dict(eid=base + k, name=nm, qname=q + "::" + nm, cls=q, kind=kind,
                                                                 const=const, virtual=False, static=False, params=ps, ret=ret,
                                                                 doc=None, lib=self.name, ret_owner="value")
-            cls = dict(name=tn, qname=q, lib=self.name, ns=None, bases=[], ctors=[mk(0, tn, "ctor", [], T("void"))],
+            cls = dict(name=tn, qname=q, lib=self.name, ns=None,
+                       bases=[dict(qname=b, virtual=v) for b, v, acc in tbases if acc == "public"],
+                       ctors=[mk(0, tn, "ctor", [], T("void"))],
                        copy_ctor=dict(eid=base + 1, name=tn, qname=q + "::" + tn, kind="copy_ctor", cls=q),
                        methods=[mk(2, "get_v", "method", [], tt, True), mk(3, "set_v", "method", [P("v", tt)], T("void")),
                                 mk(4, "twice", "method", [P("v", tt), P("k", T("int", c="int"), "2", 2)], tt, True)],
@@ -913,14 +956,18 @@ class Gen:
             self.model["typedefs"].append(dict(name=td, qname=td, target=q))
             cid = re.sub(r"\W+", "_", q)
             cx.append(f'extern "C" unsigned long long vf_state_{cid}(const void *p) {{ return ((const {tn}<{cname}> *)p)->st_{tn}; }}')
+            for b, v, acc in tbases:
+                if acc == "public":
+                    bid = re.sub(r"\W+", "_", b)
+                    cx.append(f'extern "C" void *vf_cast_{cid}__{bid}(void *p) {{ return static_cast<{b} *>(({tn}<{cname}> *)p); }}')
         cx += [
-            f"template<class T> {tn}<T>::{tn}() {{ vf::reg(this, sizeof(*this), {tn}_tr<T>::name()); _v = T(); vf::Ev vf_e({tn}_tr<T>::base + 0, this); st_{tn} = vf::mix({tn}_tr<T>::base, 11); vf_e.raw(\"r\", \"v\" + std::to_string(st_{tn})); }}",
-            f"template<class T> {tn}<T>::{tn}(const {tn} &vf_o) {{ vf::reg(this, sizeof(*this), {tn}_tr<T>::name()); _v = vf_o._v; st_{tn} = vf_o.st_{tn}; vf::Ev vf_e({tn}_tr<T>::base + 1, this); vf_e.obj(\"a0\", &vf_o); vf_e.raw(\"r\", \"v\" + std::to_string(st_{tn})); }}",
+            f"template<class T> {tn}<T>::{tn}(){binit} {{ vf::reg(this, sizeof(*this), {tn}_tr<T>::name()); _v = T(); vf::Ev vf_e({tn}_tr<T>::base + 0, this); st_{tn} = vf::mix({tn}_tr<T>::base, 11); vf_e.raw(\"r\", \"v\" + std::to_string(st_{tn})); }}",
+            f"template<class T> {tn}<T>::{tn}(const {tn} &vf_o){binit} {{ vf::reg(this, sizeof(*this), {tn}_tr<T>::name()); _v = vf_o._v; st_{tn} = vf_o.st_{tn}; vf::Ev vf_e({tn}_tr<T>::base + 1, this); vf_e.obj(\"a0\", &vf_o); vf_e.raw(\"r\", \"v\" + std::to_string(st_{tn})); }}",
             f"template<class T> {tn}<T>::~{tn}() {{ vf::unreg(this, sizeof(*this), {tn}_tr<T>::name()); }}",
             f"template<class T> T {tn}<T>::get_v() const {{ vf::Ev vf_e({tn}_tr<T>::base + 2, this); unsigned long long vf_h = vf::mix({tn}_tr<T>::base + 2, st_{tn}); T vf_r = vf::make_val<T>(vf_h); vf_e.put(\"r\", vf_r); return vf_r; }}",
             f"template<class T> void {tn}<T>::set_v(T v) {{ vf::Ev vf_e({tn}_tr<T>::base + 3, this); vf_e.put(\"a0\", v); st_{tn} = vf::mix(st_{tn}, {tn}_tr<T>::base + 3); _v = v; vf_e.raw(\"r\", \"n\"); }}",
             f"template<class T> T {tn}<T>::twice(T v, int k) const {{ vf::Ev vf_e({tn}_tr<T>::base + 4, this); vf_e.put(\"a0\", v); vf_e.put(\"a1\", k); unsigned long long vf_h = vf::mix(vf::mix(vf::mix({tn}_tr<T>::base + 4, vf::hv(v)), vf::hv(k)), st_{tn}); T vf_r = vf::make_val<T>(vf_h); vf_e.put(\"r\", vf_r); return vf_r; }}",
-            f"template<class T> {tn}<T>::{tn}(vf::PoolTag) {{ vf::reg(this, sizeof(*this), {tn}_tr<T>::name()); _v = T(); st_{tn} = 1000 + {tn}_tr<T>::base; }}",
+            f"template<class T> {tn}<T>::{tn}(vf::PoolTag){binit} {{ vf::reg(this, sizeof(*this), {tn}_tr<T>::name()); _v = T(); st_{tn} = 1000 + {tn}_tr<T>::base; }}",
             f"template<class T> {tn}<T> *{tn}<T>::vf_pool(unsigned long long h) {{ static {tn}<T> *p[3] = {{new {tn}<T>(vf::PoolTag()), new {tn}<T>(vf::PoolTag()), new {tn}<T>(vf::PoolTag())}}; return p[h % 3]; }}",
         ]
         for cname, _ in insts:
